@@ -141,6 +141,10 @@ def parse_block(s):
         if m:
             out.append(('stencil', m.group(1), m.group(2)))
             continue
+        m = re.match(r'const\s+Stencil\s*&\s*(\w+)\s*=\s*(\w+)$', st)
+        if m:
+            out.append(('stencilalias', m.group(1), m.group(2)))
+            continue
         m = re.match(r'([A-Z][A-Z_0-9]+)\s*\((.*)\)$', st)
         if m:
             out.append(('macrocall', m.group(1), [a.strip() for a in m.group(2).split(',')]))
@@ -337,6 +341,11 @@ def emit_block(stmts, cx, ind):
             except TranslateError:
                 cx.ints[name] = conv(ast, cx, 'int')
         return emit_block(rest, cx, ind)
+    if st[0] == 'stencilalias':
+        if st[2] not in cx.stencils:
+            raise TranslateError('alias of an unknown stencil %s' % st[2])
+        cx.stencils[st[1]] = cx.stencils[st[2]]
+        return emit_block(rest, cx, ind)
     if st[0] == 'macrocall':
         if st[1] != 'UPDATE_MATRIX_ELEMENT' or len(st[2]) != 5:
             raise TranslateError('unknown macro call %s' % st[1])
@@ -488,27 +497,40 @@ def return_chain(body, cx, want, names=None):
     return decls + txt + ('[]' if names is not None else '(-1)%Z')
 
 
-def gen_assembly_take(repo):
-    d = os.path.join(repo, 'src/DirectSolver/DirectSolverTakeCustomLU')
-    hdr = strip_comments(open(os.path.join(repo, 'include/DirectSolver/DirectSolverTakeCustomLU/directSolverTakeCustomLU.h')).read())
+def gen_assembly(repo, kind):
+    K = 'Take' if kind == 'take' else 'Give'
+    d = os.path.join(repo, 'src/DirectSolver/DirectSolver%sCustomLU' % K)
+    hdr = strip_comments(open(os.path.join(repo, 'include/DirectSolver/DirectSolver%sCustomLU/directSolver%sCustomLU.h' % (K, K))).read())
     pos, tabs = stencil_tables(hdr, strip_comments(open(os.path.join(repo, 'include/Stencil/stencil.h')).read()))
     ms = strip_comments(open(os.path.join(d, 'matrixStencil.cpp')).read())
-    mk = lambda: Ctx(arrays2={'arr': 'arr', 'att': 'att', 'art': 'art', 'detDF': 'det'}, arrays1={'coeff_beta': 'beta'}, own2={}, own1={},
-                     int_names={'i_r': 'i', 'i_theta': 'j'}, real_names={}, bools={'DirBC_Interior': 'dirbc', 'DirBC_Interior_': 'dirbc'})
-    get_st = return_chain(find_function_body(ms, r'const\s+Stencil&\s+DirectSolverTakeCustomLU::getStencil\s*\('), mk(), 'stencil', tabs)
-    get_sz = return_chain(find_function_body(ms, r'int\s+DirectSolverTakeCustomLU::getStencilSize\s*\('), mk(), 'int')
+    if kind == 'take':
+        mk = lambda: Ctx(arrays2={'arr': 'arr', 'att': 'att', 'art': 'art', 'detDF': 'det'}, arrays1={'coeff_beta': 'beta'}, own2={}, own1={},
+                         int_names={'i_r': 'i', 'i_theta': 'j'}, real_names={}, bools={'DirBC_Interior': 'dirbc', 'DirBC_Interior_': 'dirbc'})
+        want = ['i_r', 'i_theta', 'grid', 'DirBC_Interior', 'solver_matrix', 'arr', 'att', 'art', 'detDF', 'coeff_beta']
+        upd = '='
+    else:
+        mk = lambda: Ctx(arrays2={}, arrays1={}, own2={'arr': 'arr', 'att': 'att', 'art': 'art', 'detDF': 'det'}, own1={'coeff_beta': 'beta'},
+                         int_names={'i_r': 'i', 'i_theta': 'j'}, real_names={}, bools={'DirBC_Interior': 'dirbc', 'DirBC_Interior_': 'dirbc'})
+        want = ['i_r', 'i_theta', 'r', 'theta', 'sin_theta', 'cos_theta', 'grid', 'DirBC_Interior', 'solver_matrix', 'arr', 'att', 'art',
+                'detDF', 'coeff_beta']
+        upd = '+='
+    tabs = {('give_' if kind == 'give' else '') + k_: v for k_, v in tabs.items()}
+    pre = 'give_' if kind == 'give' else ''
+    fix = (lambda t: re.sub(r'\bgen_(stencil_\w+)', r'gen_give_\1', t)) if kind == 'give' else (lambda t: t)
+    raw_tabs = {k_[len(pre):]: v for k_, v in tabs.items()}
+    get_st = fix(return_chain(find_function_body(ms, r'const\s+Stencil&\s+DirectSolver%sCustomLU::getStencil\s*\(' % K), mk(), 'stencil', raw_tabs))
+    get_sz = return_chain(find_function_body(ms, r'int\s+DirectSolver%sCustomLU::getStencilSize\s*\(' % K), mk(), 'int')
     src = open(os.path.join(d, 'buildSolverMatrix.cpp')).read()
-    params, body = macro_body(src, 'NODE_BUILD_SOLVER_MATRIX_TAKE')
-    want = ['i_r', 'i_theta', 'grid', 'DirBC_Interior', 'solver_matrix', 'arr', 'att', 'art', 'detDF', 'coeff_beta']
+    params, body = macro_body(src, 'NODE_BUILD_SOLVER_MATRIX_%s' % K.upper())
     if params != want:
-        raise TranslateError('NODE_BUILD_SOLVER_MATRIX_TAKE parameters changed: %r' % (params,))
+        raise TranslateError('NODE_BUILD_SOLVER_MATRIX_%s parameters changed: %r' % (K.upper(), params))
     up, ub = macro_body(src, 'UPDATE_MATRIX_ELEMENT')
     if up != ['matrix', 'offset', 'row', 'col', 'val'] or ' '.join(ub.split()) != \
-            'do { matrix.row_nz_index(row, offset) = col; matrix.row_nz_entry(row, offset) = val; } while (0)':
-        raise TranslateError('UPDATE_MATRIX_ELEMENT is not  row_nz_index(row, offset) = col; row_nz_entry(row, offset) = val')
+            'do { matrix.row_nz_index(row, offset) = col; matrix.row_nz_entry(row, offset) %s val; } while (0)' % upd:
+        raise TranslateError('UPDATE_MATRIX_ELEMENT (%s) is not  row_nz_index(row, offset) = col; row_nz_entry(row, offset) %s val' % (kind, upd))
     cx = mk()
     cx.positions = pos
-    cx.get_stencil = 'gen_take_get_stencil'
+    cx.get_stencil = 'gen_%s_get_stencil' % kind
     term = emit_block(parse_block(body), cx, 4)
     return pos, tabs, get_st, get_sz, term
 
@@ -618,7 +640,8 @@ def main():
         take = gen_take(take_src)
         give = gen_give(give_src)
         rhs = gen_rhs(open(files['rhs']).read())
-        apos, atabs, aget, asz, aterm = gen_assembly_take(REPO)
+        apos, atabs, aget, asz, aterm = gen_assembly(REPO, 'take')
+        gpos, gtabs, gget, gsz, gterm = gen_assembly(REPO, 'give')
     except TranslateError as ex:
         # leave a file that does not compile: the tie is then reported as broken, with the reason
         with open(OUT, 'w') as f:
@@ -642,6 +665,12 @@ def main():
     out += '  Definition gen_take_get_stencil_size (i : Z) : Z :=\n    %s.\n' % asz
     out += '  Definition mwrite := ((((Z * Z) * Z) * (Z * Z)) * S)%type.    (* row node, slot, column node, value *)\n'
     out += '  Definition gen_build_solver_matrix_take (i j : Z) : list mwrite :=\n    %s.\n' % aterm
+    out += '\n  (* ---- direct solver (give): UPDATE_MATRIX_ELEMENT accumulates (+=) ---- *)\n'
+    for nm, vals in gtabs.items():
+        out += '  Definition gen_%s : list Z := [%s]%%Z.\n' % (nm, '; '.join(str(v) for v in vals))
+    out += '  Definition gen_give_get_stencil (i : Z) : list Z :=\n    %s.\n' % gget
+    out += '  Definition gen_give_get_stencil_size (i : Z) : Z :=\n    %s.\n' % gsz
+    out += '  Definition gen_build_solver_matrix_give (i j : Z) : list mwrite :=\n    %s.\n' % gterm
     out += 'End StencilGen.\n'
     with open(OUT, 'w') as f:
         f.write(out)
